@@ -60,8 +60,9 @@ impl<K, V> HashMap<K, V> {
     #[verifier::external_body]
     pub fn retain_spec(&mut self, Ghost(f): Ghost<spec_fn(K, V) -> bool>)
         ensures
-            forall|k: K| #[trigger] final(self)@.contains_key(k) <==> (old(self)@.contains_key(k) && f(k, old(self)@[k])),
-            forall|k: K| #[trigger] final(self)@.contains_key(k) ==> final(self)@[k] == old(self)@[k],
+            forall|k: K| #![trigger final(self)@.contains_key(k)] #![trigger old(self)@.contains_key(k)]
+                final(self)@.contains_key(k) <==> (old(self)@.contains_key(k) && f(k, old(self)@[k])),
+            forall|k: K| #![trigger final(self)@[k]] final(self)@.contains_key(k) ==> final(self)@[k] == old(self)@[k],
     { unimplemented!() }
 }
 
@@ -98,6 +99,21 @@ impl<K> HashSet<K> {
     #[verifier::external_body]
     pub fn retain_spec(&mut self, Ghost(f): Ghost<spec_fn(K) -> bool>)
         ensures
-            forall|k: K| #[trigger] final(self)@.contains(k) <==> (old(self)@.contains(k) && f(k)),
+            forall|k: K| #![trigger final(self)@.contains(k)] #![trigger old(self)@.contains(k)]
+                final(self)@.contains(k) <==> (old(self)@.contains(k) && f(k)),
+    { unimplemented!() }
+}
+
+// R8 map-iteration schema: consuming a map yields each entry exactly once, in an unspecified order.
+pub open spec fn entries_of<K, V>(m: Map<K, V>, e: Seq<(K, V)>) -> bool {
+    &&& forall|i: int, j: int| 0 <= i < j < e.len() ==> e[i].0 != e[j].0
+    &&& forall|i: int| 0 <= i < e.len() ==> m.contains_key(#[trigger] e[i].0) && m[e[i].0] == e[i].1
+    &&& forall|k: K| #[trigger] m.contains_key(k) ==> exists|i: int| 0 <= i < e.len() && e[i].0 == k
+}
+
+impl<K, V> HashMap<K, V> {
+    #[verifier::external_body]
+    pub fn into_entries(self) -> (r: Vec<(K, V)>)
+        ensures entries_of(self@, r@),
     { unimplemented!() }
 }
